@@ -394,6 +394,7 @@ PROPS["C07"] = {
         K("c07_sender_half_switches_to_confirmed_key", "confirmation with a higher id: start SENDING with shared(own proposal, confirmation) under exactly that id"),
         K("c07_stale_or_duplicate_message_is_ignored", "message id not above the own id: ignored, state untouched"),
         K("c07_lost_message_is_resent_unchanged", "lost proposal: next cycle arms the timeout, the one after re-sends the same proposal under the same id"),
+        K("c07_resend_with_confirmation_keeps_id_and_content", "lost message that carried a confirmation: re-sent with the same id, confirmation and proposal; nothing installed, own id unchanged"),
         K("c04_rotate_slot0_send", "rotate_key installs into slot id mod 4 and switches the sending slot when asked"),
         K("c04_rotate_slot1_recv", "rotate_key (receive only) leaves the sending slot alone"),
         K("c04_rotate_slot2_send", "slot 2", T), K("c04_rotate_slot3_recv", "slot 3", T),
@@ -410,8 +411,9 @@ HS_ASSUME = RING_ASSUME[1:] + [
 PROPS["C14"] = {
     "files": ["src/crypto/init.rs"],
     "functions": ["InitState::handle_init (Ping arm)", "InitState::check_salted_node_id_hash", "InitState::new"],
-    "bounds": "one real handle_init step of a fresh responder (built by the real InitState::new, arbitrary node id and salt) on a "
-              "verified ping whose salted hash was made from the same node id with an arbitrary other salt",
+    "bounds": "one real handle_init step of a handshake object built by the real InitState::new (arbitrary node id and salt) in each "
+              "stage (fresh, awaiting pong, awaiting peng, lingering, closing) on a verified ping whose salted hash was made from "
+              "the same node id with an arbitrary other salt",
     "outside": "everything else the property says: full-mesh convergence from any connected bootstrap graph, NAT scenarios, "
                "adoption of own addresses listed by peers (GenericCloud::connect_to_peers) - whole-node behaviour, not reachable. "
                "Only the handshake-level self-connection refusal is decided",
@@ -419,6 +421,10 @@ PROPS["C14"] = {
     "obligations": [
         K("c14_ping_from_own_node_id_is_refused", "a ping from another handshake object of the same node is refused as 'connected to self': no core, no reply, stage unchanged",
           role="c14_self_ping", timeout={"quick": 600}),
+        K("c14_self_ping_refused_awaiting_pong", "same while awaiting the pong (the node dialled two of its own addresses)", role="c14_self_ping", timeout={"quick": 600}),
+        K("c14_self_ping_refused_awaiting_peng", "same while awaiting the peng", role="c14_self_ping", timeout={"quick": 600}),
+        K("c14_self_ping_refused_lingering", "same while lingering after success", T, role="c14_self_ping"),
+        K("c14_self_ping_refused_closing", "same while closing", T, role="c14_self_ping"),
     ],
 }
 
